@@ -26,6 +26,8 @@ func (self ValueObject) Display() (string, *Interrupt) {
 		fields = append(fields, fmt.Sprintf("%s: %s", key, disp))
 	}
 
+	sort.Strings(fields)
+
 	return fmt.Sprintf("{\n    %s\n}", strings.Join(fields, ",\n    ")), nil
 }
 
